@@ -12,7 +12,7 @@
    Hypotheses beside the (1+d) laws: the leading coefficient of v is not zero; the dividend's coefficients belong to
    the set F of floating-point numbers; results of -, *, / are in F and 0 + x = x + 0 = x - 0 = x for x in F (true of
    every correctly rounded arithmetic; discharged for 53-bit round-to-nearest-even in Proofs/Round2PolyB.v).
-   (c) polydiv_rounded_identity_float: the first bound for the PRIMITIVE-FLOAT instance itself ([polydiv] at AF, IEEE
+   (c) polydiv_rounded_identity_float / polydiv_rounded_residual_float: both bounds for the PRIMITIVE-FLOAT instance itself ([polydiv] at AF, IEEE
    binary64, u = 2^-53), through Flocq: whenever the answer (q, r) is finite and no quotient r_top / v_top and no
    product c * v_j of the run underflows ([pd_nounder], a condition on computable values of the run).
    Unproved remainder: (a), (b) assume the standard model; (c) says nothing when the answer is not finite or a
@@ -60,7 +60,8 @@ Check polydiv_rounded_identity : forall (u : R), (0 <= u < 1)%R ->
         * (Rabs (nth k a 0) + Rsum (S k) (fun i => Rabs (nth i q 0) * Rabs (nth (k - i) v 0))))%R.
 Print Assumptions polydiv_rounded_identity.
 (* the hypotheses are met by an arithmetic that rounds every operation (53-bit round-to-nearest-even), with F the
-   numbers of that format, and polydiv answers in it with an inexact quotient: (1 + x) / 3 = c + c x, c = fl(1/3) <> 1/3 *)
+   numbers of that format, and polydiv answers in it with an inexact quotient:
+   (1 + x + x^2) / (1 + 3x) = c2 + c x remainder y,  c = fl(1/3) <> 1/3,  c2 = fl(fl(1 - c)/3),  y = fl(1 - c2) *)
 Example polydiv_rounded_identity_nonvacuous :
   (0 <= ux < 1)%R /\
   (forall x y : R, exists d : R, (Rabs d <= ux)%R /\ xadd x y = ((x + y) * (1 + d))%R) /\
@@ -70,9 +71,9 @@ Example polydiv_rounded_identity_nonvacuous :
   (forall x y : R, Fx (xsub x y)) /\ (forall x y : R, Fx (xmul x y)) /\ (forall x y : R, Fx (xdiv x y)) /\
   (forall x : R, Fx x -> xadd 0%R x = x) /\ (forall x : R, Fx x -> xadd x 0%R = x) /\
   (forall x : R, Fx x -> xsub x 0%R = x) /\
-  last [3%R] 0%R <> 0%R /\ Forall Fx [1%R; 1%R] /\
-  (INR (2 * Nat.min (length [1%R; 1%R] + 1 - length [3%R]) (length [3%R])) * ux < 1)%R /\
-  polydiv (A := AFlx) [1%R; 1%R] [3%R] = Ok (inl ([xdiv 1%R 3%R; xdiv 1%R 3%R], [0%R])) /\
+  last [1%R; 3%R] 0%R <> 0%R /\ Forall Fx [1%R; 1%R; 1%R] /\
+  (INR (2 * Nat.min (length [1%R; 1%R; 1%R] + 1 - length [1%R; 3%R]) (length [1%R; 3%R])) * ux < 1)%R /\
+  polydiv (A := AFlx) [1%R; 1%R; 1%R] [1%R; 3%R] = Ok (inl ([ex_c2; xdiv 1%R 3%R], [ex_y])) /\
   xdiv 1%R 3%R <> (1 / 3)%R.
 Proof.
   split; [exact ux_range|]. split; [exact xadd_ok|]. split; [exact xsub_ok|]. split; [exact xmul_ok|].
@@ -80,7 +81,7 @@ Proof.
   split; [exact xadd_0_l|]. split; [exact xadd_0_r|]. split; [exact xsub_0_r|].
   split; [cbn; lra|]. split; [repeat constructor; exact Fx_1|].
   split; [cbn [length Nat.add Nat.sub Nat.mul Nat.min INR]; pose proof ux_small; lra|].
-  split; [exact ex_polydiv|exact xdiv_inexact].
+  split; [exact ex2_polydiv|exact xdiv_inexact].
 Qed.
 
 (* the same error against the computed quotient and remainder only: gam (4 M) ( Sum |q_i||v_{k-i}| + |r_k| ) *)
@@ -121,12 +122,12 @@ Check polydiv_rounded_residual : forall (u : R), (0 <= u < 1)%R ->
         * (Rsum (S k) (fun i => Rabs (nth i q 0) * Rabs (nth (k - i) v 0)) + Rabs (nth k r 0)))%R.
 Print Assumptions polydiv_rounded_residual.
 Example polydiv_rounded_residual_nonvacuous :   (* same instance and division as above *)
-  (0 <= ux < 1)%R /\ last [3%R] 0%R <> 0%R /\ Forall Fx [1%R; 1%R] /\
-  (INR (4 * Nat.min (length [1%R; 1%R] + 1 - length [3%R]) (length [3%R])) * ux < 1)%R /\
-  polydiv (A := AFlx) [1%R; 1%R] [3%R] = Ok (inl ([xdiv 1%R 3%R; xdiv 1%R 3%R], [0%R])).
+  (0 <= ux < 1)%R /\ last [1%R; 3%R] 0%R <> 0%R /\ Forall Fx [1%R; 1%R; 1%R] /\
+  (INR (4 * Nat.min (length [1%R; 1%R; 1%R] + 1 - length [1%R; 3%R]) (length [1%R; 3%R])) * ux < 1)%R /\
+  polydiv (A := AFlx) [1%R; 1%R; 1%R] [1%R; 3%R] = Ok (inl ([ex_c2; xdiv 1%R 3%R], [ex_y])).
 Proof.
   split; [exact ux_range|]. split; [cbn; lra|]. split; [repeat constructor; exact Fx_1|].
-  split; [cbn [length Nat.add Nat.sub Nat.mul Nat.min INR]; pose proof ux_small; lra|exact ex_polydiv].
+  split; [cbn [length Nat.add Nat.sub Nat.mul Nat.min INR]; pose proof ux_small; lra|exact ex2_polydiv].
 Qed.
 
 (* the same for the primitive floats themselves (IEEE binary64, u64 = 2^-53, g64 n = gam u64 n), through Flocq *)
@@ -162,4 +163,38 @@ Example polydiv_rounded_identity_float_nonvacuous :
 Proof.
   split; [exact exf_polydiv|]. split; [exact (proj1 exf_fin)|]. split; [exact (proj2 exf_fin)|].
   split; [exact exf_lead|]. split; [exact exf_nounder|]. split; [exact exf_size|exact exf_q_inexact].
+Qed.
+
+(* ... and against the computed quotient and remainder only, at binary64 *)
+Theorem polydiv_rounded_residual_float : forall (a v q r : list PrimFloat.float),
+  polydiv (A := AF) a v = Ok (inl (q, r)) -> Forall ffinite q -> Forall ffinite r -> FR (last v 0%float) <> 0%R ->
+  pd_nounder (S POLYDIV_MAX) [] a v ->
+  (INR (4 * Nat.min (length a + 1 - length v) (length v)) * u64 < 1)%R ->
+  forall k : nat,
+  (Rabs (FR (nth k a 0%float) - Rsum (S k) (fun i => FR (nth i q 0%float) * FR (nth (k - i) v 0%float))
+         - FR (nth k r 0%float))
+     <= g64 (4 * Nat.min (length a + 1 - length v) (length v))
+        * (Rsum (S k) (fun i => Rabs (FR (nth i q 0%float)) * Rabs (FR (nth (k - i) v 0%float)))
+           + Rabs (FR (nth k r 0%float))))%R.
+Proof. intros a v q r E Hq Hr Hv P Hn. exact (polydiv_rounded_residual_float_lemma a v q r E Hq Hr Hv P Hn). Qed.
+Check polydiv_rounded_residual_float : forall (a v q r : list PrimFloat.float),
+  polydiv (A := AF) a v = Ok (inl (q, r)) -> Forall ffinite q -> Forall ffinite r -> FR (last v 0%float) <> 0%R ->
+  pd_nounder (S POLYDIV_MAX) [] a v ->
+  (INR (4 * Nat.min (length a + 1 - length v) (length v)) * u64 < 1)%R ->
+  forall k : nat,
+  (Rabs (FR (nth k a 0%float) - Rsum (S k) (fun i => FR (nth i q 0%float) * FR (nth (k - i) v 0%float))
+         - FR (nth k r 0%float))
+     <= g64 (4 * Nat.min (length a + 1 - length v) (length v))
+        * (Rsum (S k) (fun i => Rabs (FR (nth i q 0%float)) * Rabs (FR (nth (k - i) v 0%float)))
+           + Rabs (FR (nth k r 0%float))))%R.
+Print Assumptions polydiv_rounded_residual_float.
+Print Assumptions polydiv_zero_divisor_lemma.   (* closed; ends the listing of float primitives above for the driver's parser *)
+Example polydiv_rounded_residual_float_nonvacuous :   (* same division as above *)
+  polydiv (A := AF) exf_a exf_v = Ok (inl (exf_q, exf_r)) /\ Forall ffinite exf_q /\ Forall ffinite exf_r /\
+  FR (last exf_v 0%float) <> 0%R /\ pd_nounder (S POLYDIV_MAX) [] exf_a exf_v /\
+  (INR (4 * Nat.min (length exf_a + 1 - length exf_v) (length exf_v)) * u64 < 1)%R.
+Proof.
+  split; [exact exf_polydiv|]. split; [exact (proj1 exf_fin)|]. split; [exact (proj2 exf_fin)|].
+  split; [exact exf_lead|]. split; [exact exf_nounder|].
+  cbn [length exf_a exf_v Nat.add Nat.sub Nat.mul Nat.min INR]. pose proof u64_small. lra.
 Qed.
